@@ -416,6 +416,19 @@ class TypeFlow:
             for v in self.callee_vals(c, f, mod):
                 if v[0] in ("F", "BM"):
                     res0.add((P.funcs[v[1]], v[0] == "BM"))
+                elif v[0] == "K":
+                    m_ = P.method(P.classes[v[1]], "__init__")
+                    if m_ is not None:
+                        res0.add((m_, True))
+                elif v[0] == "C":
+                    m_ = P.method(P.classes[v[1]], "__call__")
+                    if m_ is not None:
+                        res0.add((m_, True))
+            # recorded like every other call: the call graph keeps the edges from the helper to what it applies
+            old_ = self.calls.get(id(c), set())
+            if not res0 <= old_:
+                self.calls[id(c)] = old_ | res0
+                self.changed = True
             return res0
         cvals = self.callee_vals(c, f, mod)
         fn = c.func
